@@ -48,6 +48,7 @@ type c02Scn struct {
 	extra     []string // further one-off jobs scheduled for T before the actions start
 	bound     [2]int   // bounds (quick, thorough) when the defaults (2, unbounded) are too wide
 	deviation bool     // count every non-default scheduling choice (scenarios with more than four goroutines)
+	lastTick  int64    // periodic: if >0 the runtime function has no more instances after this instant
 }
 
 type c02State struct {
@@ -115,6 +116,10 @@ func c02Units(tier string) []hx.Unit {
 	scns = append(scns, c02Scn{name: "S1d/run(dead ctx)@-1", T: T, actions: []c02Action{{at: T - sec, kind: "run", name: "J", dead: true}}, reschedAt: T + 3*sec})
 	scns = append(scns, c02Scn{name: "S1d/runif(dead ctx)@-1", T: T, actions: []c02Action{{at: T - sec, kind: "runif", name: "J", dead: true}}, reschedAt: T + 3*sec})
 	scns = append(scns, c02Scn{name: "S5/periodic/run(dead ctx)@T/2", periodic: true, T: T, horizon: 3*T + 2*sec, actions: []c02Action{{at: T / 2, kind: "run", name: "J", dead: true}}})
+	// a runtime function with a last instance: an early run at the last tick must not be lost with the job
+	scns = append(scns, c02Scn{name: "S5/periodic/finite1/run@T", periodic: true, lastTick: T, T: T, horizon: 2*T + 2*sec, actions: []c02Action{{at: T, kind: "run", name: "J"}}})
+	scns = append(scns, c02Scn{name: "S5/periodic/finite2/run@2T", periodic: true, lastTick: 2 * T, T: T, horizon: 3*T + 2*sec, actions: []c02Action{{at: 2 * T, kind: "run", name: "J"}}})
+	scns = append(scns, c02Scn{name: "S5/periodic/finite2/run@T", periodic: true, lastTick: 2 * T, T: T, horizon: 3*T + 2*sec, actions: []c02Action{{at: T, kind: "run", name: "J"}}})
 	scns = append(scns, c02Scn{name: "S5/periodic/dur12", periodic: true, jobDur: 12 * sec, T: T, horizon: 4*T + 5*sec})
 	// S6: name re-use
 	scns = append(scns, c02Scn{name: "S6/cancel@-2,sched@-2", T: T, actions: []c02Action{{at: T - 2*sec, kind: "cancel", name: "J"}, {at: T - 2*sec, kind: "sched", name: "J"}}})
@@ -193,6 +198,9 @@ func c02Body(sc *c02Scn, st *c02State) {
 	if sc.periodic {
 		st.schedErr = svc.SchedulePeriodicJob(ctx, "class", "J", func(_ context.Context) (time.Time, error) {
 			k := mc.Now()/sc.T + 1
+			if sc.lastTick > 0 && k*sc.T > sc.lastTick {
+				return time.Time{}, scheduler.ErrNoMoreInstances
+			}
 			return at(k * sc.T), nil
 		}, jobFn)
 	} else {
@@ -474,6 +482,9 @@ func c02Check(sc *c02Scn, st *c02State, r *mc.Result) mc.Verdict {
 		}
 		for k := int64(1); k*sc.T <= sc.horizon-sec; k++ {
 			tk := k * sc.T
+			if sc.lastTick > 0 && tk > sc.lastTick {
+				break
+			}
 			if tk <= last+sc.jobDur {
 				continue
 			}
